@@ -168,6 +168,8 @@ SIM_TREES = [_sim("SimRBT", 16, 160), _sim("SimAVL", 16, 160), _sim("SimBT3", 10
              _sim("SimBT5", 8, 200), _sim("SimBT8", 8, 200), _sim("SimBT12", 8, 200)]
 for _p in ("C01", "C02", "C07"):
     PLAN[_p]["sim"] = SIM_TREES
+PLAN["C05"]["sim"] = [_sim("SimRing7", 10, 120), _sim("SimRing12", 10, 120)]
+PLAN["C06"]["sim"] = [_sim("SimHeap", 16, 80)]
 PLAN["C06"]["fidelity"] = FID_HEAP
 PLAN["C05"]["proofs"] = [dict(module="RingInv.tla", what="for every capacity >= 1: start, end in range, size = calculateSize(start, end, full), "
                               "full <=> size = capacity is an inductive invariant of the ring's index arithmetic (RingIdx, which MCRing shows the ring model refines)")]
